@@ -216,6 +216,15 @@ impl<'a> VxIter<&'a String> {
     { unimplemented!() }
 }
 
+impl<'a> VxIter<&'a super::r64_shim::R64> {
+    /// Iterator::eq on two iterators of f64 references: same length and element-wise equal values
+    #[verifier::external_body]
+    pub fn eq<'b>(self, other: VxIter<&'b super::r64_shim::R64>) -> (r: bool)
+        ensures r == (self.seq().len() == other.seq().len()
+            && forall|i: int| 0 <= i < self.seq().len() ==> (#[trigger] self.seq()[i])@ == other.seq()[i]@),
+    { unimplemented!() }
+}
+
 pub broadcast group group_coll {
     axiom_string_ext,
     axiom_indexset_nodup,
